@@ -1321,6 +1321,11 @@ def _bind(fn, call, is_method, caller_names, log_name):
     taken = set(caller_names)
     if is_method and params[0] not in ('self', 'cls'):
         mapping[params[0]] = 'self'
+    recv = call.func.value if isinstance(call.func, ast.Attribute) else None
+    if is_method and isinstance(recv, ast.Name) and recv.id not in ('self', 'cls') and not _is_classmethod(fn):
+        if params[0] in _assigned_names(fn):
+            raise _Bail('helper re-binds self')
+        mapping[params[0]] = recv     # the helper runs on another object
     # helper locals that clash with caller names get a suffix
     for name in sorted(assigned - set(plist)):
         if name in taken:
@@ -1719,12 +1724,19 @@ def inline_new_helpers(repo, inv: dict, log: list) -> bool:
                     callers += [f.node for f in repo.funcs.values() if f.cls is not None and f.cls.qual in family
                                 and f.node not in callers]
 
-                    def is_target(e, name=fn.name, static=not is_method, cname=container.name, clsm=_is_classmethod(fn)):
+                    unique_name = sum(1 for ci_ in repo.classes.values() if fn.name in ci_.methods) == 1
+
+                    def is_target(e, name=fn.name, static=not is_method, cname=container.name, clsm=_is_classmethod(fn),
+                                  unique_name=unique_name):
                         if not (isinstance(e.func, ast.Attribute) and e.func.attr == name and isinstance(e.func.value, ast.Name)):
                             return False
                         if clsm:   # a classmethod helper: only calls through `cls` (its cls is then the caller's cls)
                             return e.func.value.id == 'cls'
-                        return e.func.value.id == 'self' or (static and e.func.value.id in (cname, 'cls'))
+                        if e.func.value.id == 'self' or (static and e.func.value.id in (cname, 'cls')):
+                            return True
+                        # `other._helper(..)` on another object of the family (a copy of self ...): the name is defined by
+                        # this one class only, so the call cannot mean anything else
+                        return (not static) and unique_name and e.func.value.id not in ('cls', 'super')
                 else:
                     callers = [f.node for f in repo.funcs.values() if f.module is mod]
 
